@@ -41,7 +41,7 @@ var props = map[string]propSpec{
 	"C06": {"C06", []string{"badfrom", "badto", "rnd-badfrom", "rnd-badto"}, "", nil},
 	"C07": {"C07", []string{"empty", "reset", "rnd-empty", "rnd-reset"}, "", nil},
 	"C08": {"C08", []string{"echo", "rnd-echo"}, "", nil},
-	"C09": {"C09", []string{"refresh", "rnd-refresh"}, "", nil},
+	"C09": {"C09", []string{"refresh", "lifecycle", "rnd-refresh"}, "", nil},
 	"C10": {"C10", []string{"genflags", "rnd-gen"}, "", nil},
 	"C11": {"C11", []string{"genaddr", "genexcl"}, "", nil},
 	"C12": {"C12", []string{"genselect"}, "", nil},
@@ -404,7 +404,7 @@ func firstError(out string) string {
 }
 
 func writeEvidence(p propSpec, tier string, seed int64, e evidence) {
-	if pipeline.RepoDir != "/repo" {
+	if pipeline.RepoDir != "/repo" || os.Getenv("VERIF_NO_EVIDENCE") != "" {
 		return // a development run against another tree says nothing about /repo
 	}
 	cov := map[string]interface{}{
